@@ -2227,10 +2227,15 @@ impl Gen {
         let p = idents[self.rng.below(idents.len())].clone();
         if roll < 60 {
             p
-        } else {
+        } else if roll < 82 {
             // a sibling path with another name of the universe (may or may not exist: "future" path)
             let cut = p.rfind('/').unwrap_or(0);
             format!("{}/{}", &p[..cut], self.uname())
+        } else {
+            // the path the element would have below another identifiable element (the text a reference has "ahead of a move")
+            let q = idents[self.rng.below(idents.len())].clone();
+            let cut = p.rfind('/').unwrap_or(0);
+            format!("{}{}", q, &p[cut..])
         }
     }
 
